@@ -9,3 +9,5 @@ gcc -O1 -w -D_GNU_SOURCE -I"$V/carriers" "$V/tools/selfcheck.c" -o "$T/selfcheck
 flex -Pcfg_yy -o "$T/lexer.c" /repo/src/lexer.l
 python3 "$V/extract/extract_func.py" /repo/src/confuse.c "$T"
 python3 "$V/extract/extract_actions.py" "$T/lexer.c" /repo/src/lexer.l "$T"
+# registry consistency (informational): every obligation tagged for a property runs for that property
+python3 "$V/tools/registry_check.py" || echo "selfcheck: registry gaps listed above (informational)"
